@@ -2071,6 +2071,13 @@ class RedunBackendDb(RedunBackend):
                 )
             )
             try:
+                # Commit the File/Task row, the subvalues and their links together with the Value
+                # row: record_value() returns early once the Value row exists, so an interruption
+                # (or a retry) in between would lose them for good.
+                self._record_special_redun_values([value], [value_hash])
+                subvalues = list(value_interface.iter_subvalues())
+                if subvalues:
+                    self._record_subvalues(subvalues, value_hash)
                 session.commit()
             except sa.exc.IntegrityError:
                 # Most likely value recorded in the meantime by another process.
@@ -2083,13 +2090,6 @@ class RedunBackendDb(RedunBackend):
                 else:
                     # something else went wrong
                     raise
-
-            self._record_special_redun_values([value], [value_hash])
-
-            # Record subvalues.
-            subvalues = list(value_interface.iter_subvalues())
-            if subvalues:
-                self._record_subvalues(subvalues, value_hash)
 
         return value_hash
 
@@ -2141,7 +2141,8 @@ class RedunBackendDb(RedunBackend):
                 )
 
         if new_inserts:
-            self.session.commit()
+            # The caller (record_value) commits.
+            self.session.flush()
 
     def _record_subvalues(self, subvalues: list[Any], parent_value_hash: str):
         """
@@ -2207,7 +2208,8 @@ class RedunBackendDb(RedunBackend):
                 )
 
             if new_inserts:
-                session.commit()
+                # The caller (record_value) commits.
+                session.flush()
 
             self._record_special_redun_values(subvalues, value_hashes)
 
